@@ -205,3 +205,4 @@ SET_DESIGN = []
 for _g in GEOMS:
     for _fs, _fv in (("system", SYSTEM_FLOW), ("Borehole", BOREHOLE_FLOW)):
         SET_DESIGN.append(_set_design_contract(_g, _fs, _fv).name)
+
